@@ -263,7 +263,10 @@ def _make_adaptive_stepper_general(
             # do the step if the error is sufficiently small
             if error_rel <= 1:
                 steps += 1
-                t += dt_step
+                # land exactly on t_end when the step was clipped to the remaining interval
+                # (t + (t_end - t) may round to the float below t_end, which costs an extra
+                # step of dt_min that ends beyond t_end)
+                t = t_end if dt_step == t_end - t else t + dt_step
                 state_data[...] = new_state
                 state_data, post_step_data = post_step_hook(
                     state_data, t, post_step_data
@@ -411,7 +414,10 @@ def _make_adaptive_stepper_euler(
                 else:
                     # everything worked => do the step
                     steps += 1
-                    t += dt_step
+                    # land exactly on t_end when the step was clipped to the remaining interval
+                    # (t + (t_end - t) may round to the float below t_end, which costs an extra
+                    # step of dt_min that ends beyond t_end)
+                    t = t_end if dt_step == t_end - t else t + dt_step
                     state_cur, post_step_data = post_step_hook(
                         step_small, t, post_step_data
                     )
